@@ -276,6 +276,7 @@ def run(ctx):
     r27_4(ctx, m, okl)
     r27_5(ctx, m, mod, okl)
     r27_6(ctx, m, okl)
+    r27_7(ctx, m, okl)
     ctx.rule("R27.3", "enumerated options are validated before first use: save_strategy membership test raises before "
                       "the value is stored/used; reserved-key check precedes directory creation", floor=2)
     cfg = cfg_of(okl)
@@ -447,3 +448,27 @@ def r27_6(ctx, m, okl):
     last = [p for p in pops if not any(isinstance(cfg.nodes[b].ast, (ast.Continue, ast.Break)) for b, l in cfg.succ[p.id])]
     ctx.check("R27.6", f"{okl.key}::a regular iteration ends only after the inspect callback",
               bool(last) and all(ins[0].id in dom[p.id] for p in last), None, okl)
+
+
+def r27_7(ctx, m, okl, rule="R27.7"):
+    """per-iteration options reach every energy that is built for the iteration"""
+    ctx.rule(rule, "option threading: every energy constructed inside the iteration loop receives constants=constants(<iteration>) "
+                   "(and SampledKLEnergy additionally point_estimates and comm of that iteration), on the serial and on the MPI path alike", floor=2)
+    loops = [n for n in walk_no_nested(okl.node) if isinstance(n, ast.For) and any(
+        isinstance(c, ast.Call) and call_name(c) == "push_sseq" for c in ast.walk(n))]
+    if len(loops) != 1 or not isinstance(loops[0].target, ast.Name):
+        ctx.und(rule, f"{okl.key}::iteration loop", "not found", okl)
+        return
+    v = loops[0].target.id
+    ctors = [c for c in ast.walk(loops[0]) if isinstance(c, ast.Call) and call_name(c) in ("EnergyAdapter", "SampledKLEnergy")]
+    for c in ctors:
+        kw = {k.arg: src(k.value) for k in c.keywords}
+        need = {"constants": f"constants({v})"}
+        if call_name(c) == "SampledKLEnergy":
+            need.update({"point_estimates": f"point_estimates({v})", "comm": f"comm({v})"})
+        miss = {k: kw.get(k) for k, w in need.items() if kw.get(k) != w}
+        ctx.check(rule, f"{okl.key}::{call_name(c)}(...) gets the iteration's options [{', '.join(sorted(need))}]", not miss,
+                  f"{miss}: the option is documented per iteration but this energy is built without it (the keys would be optimised / "
+                  "sampled although the configuration says otherwise)", okl, c)
+    if not ctors:
+        ctx.und(rule, f"{okl.key}::energy constructors", "none found in the loop", okl)
